@@ -275,20 +275,34 @@ pub fn generate(args: &Args, out: &mut Out) {
     queue.push_back((vec![], 0));
     let cap = if full { 60000 } else { 4000 };
     while let Some((hist, d)) = queue.pop_front() {
-        let mut base = Object::new();
-        for op in &hist {
-            apply(&mut base, op);
-        }
+        // the explorer itself runs the implementation: a panic here (only possible on a broken
+        // tree) must not kill the generator; the history that led to it has already been
+        // emitted as a case, whose guarded evaluation reports PANIC against the model
+        let hist2 = hist.clone();
+        let base = match std::panic::catch_unwind(move || {
+            let mut base = Object::new();
+            for op in &hist2 {
+                apply(&mut base, op);
+            }
+            base
+        }) {
+            Ok(b) => b,
+            Err(_) => continue,
+        };
         for op in op_instances(nkeys, nvals, base.len()) {
             let mut h2 = hist.clone();
             h2.push(op.clone());
             out.case_str(&format!("h {} {}", nkeys, h2.join(" ")));
             if d + 1 < depth && seen.len() < cap {
-                let mut o2 = base.clone();
-                apply(&mut o2, &op);
-                let sig = format!("{}|{}", entries_str(&o2), buckets_str(&o2));
-                if seen.insert(sig) {
-                    queue.push_back((h2, d + 1));
+                let sig = std::panic::catch_unwind(std::panic::AssertUnwindSafe(|| {
+                    let mut o2 = base.clone();
+                    apply(&mut o2, &op);
+                    format!("{}|{}", entries_str(&o2), buckets_str(&o2))
+                }));
+                if let Ok(sig) = sig {
+                    if seen.insert(sig) {
+                        queue.push_back((h2, d + 1));
+                    }
                 }
             }
         }
